@@ -19,6 +19,7 @@ TraceReset == IsEv("Reset") /\ cat' = <<>> /\ db' = <<>> /\ tx' = <<>>
 
 TraceBegin      == IsEv("Begin") /\ Begin(E.t, E.mode)
 TraceArm        == IsEv("Arm") /\ Arm(E.t)
+TraceNewStoreBegin == IsEv("NewStoreBegin") /\ NewStoreBegin(E.t, E.s, E.unique)
 TraceNewStore   == IsEv("NewStore") /\ NewStore(E.t, E.s, E.unique, E.ok)
 TraceOpenStore  == IsEv("OpenStore") /\ OpenStore(E.t, E.s, E.ok)
 TraceOp ==
@@ -45,7 +46,7 @@ TraceLin         == \E t \in DOMAIN tx : Lin(t) /\ UNCHANGED l
 
 TraceNext == \/ TraceReset \/ TraceBegin \/ TraceArm \/ TraceNewStore \/ TraceOpenStore \/ TraceOp
              \/ TraceCommitStart \/ TraceCommitEnd \/ TraceRollback \/ TraceRemoveStore \/ TraceObserve
-             \/ TraceLin \/ TraceFailedCall
+             \/ TraceLin \/ TraceFailedCall \/ TraceNewStoreBegin
 
 TraceSpec == TraceInit /\ [][TraceNext]_tvars
 
